@@ -56,3 +56,6 @@ PROPS['C03'] = {
     'level_note': 'Trusted: Coq kernel; hand-written Gallina model incl. sqlite table semantics/affinity (validated by reading the real table through a second connection on every run); sqlite single-statement atomicity for mid-handler crash points; one clock reading per call. No axioms.',
     'technique': 'Coq proof (invariant database rows = records, load/parse round trip, induction over histories, permutation-independent re-marking) + differential correspondence with crash-point copies of real sqlite files + monitors',
 }
+
+PROPS['C04']['race_phase'] = True
+PROPS['C02']['race_phase'] = True
